@@ -23,14 +23,14 @@ use verif_harness::Warnings;
 type Typed = BTreeMap<(TypeId, u16), Vec<i32>>;
 
 fn gen_typed(rng: &mut Rng) -> (Typed, Vec<(TypeId, u16)>) {
-    let nitems = match rng.below(7) {
+    let nitems = if cfg!(miri) { rng.range(0, 20) as usize } else { match rng.below(7) {
         0 => 0,
         1 => 1,
         2 => rng.range(1, 10) as usize,
         3 => rng.range(10, 100) as usize,
         4 => 1024,
         _ => rng.range(1, 1024) as usize,
-    };
+    } };
     let nuuid = match rng.below(6) {
         0 => 0,
         1 => 1,
@@ -221,6 +221,7 @@ fn one(ctx: &mut Ctx, rng: &mut Rng) {
                 b.add_item(k.0, k.1, &m[k]).map_err(|e| ("refusal-probe".to_string(), "builder-refused".to_string(), format!("{:?}", e)))?;
             }
             let huge = vec![7i32; 17_000];
+            let _ = cfg!(miri);
             let mut probe_id = 0u16;
             while m.contains_key(&(TypeId::Ordinal(1), probe_id)) {
                 probe_id += 1;
